@@ -26,7 +26,8 @@ let parse_changes (s : string) : change list =
 let show_desc (d : desc) = Printf.sprintf "%d:%d:%d" (int_of_n d.dkey) (int_of_n d.dart) (int_of_n d.dpay)
 let show_list (l : desc list) = if l = [] then "-" else String.concat "," (List.map show_desc l)
 let dash s = if s = "" then "-" else s
-let show_res = function ROk -> "ok" | RIdxDel -> "idxdel" | RErr -> "err"
+(* RLost (the PUT took effect, its response was lost) is a ghost distinction: the caller sees a plain error *)
+let show_res = function ROk -> "ok" | RIdxDel -> "idxdel" | RErr -> "err" | RLost -> "err"
 
 (* a visible schedule (G<t> | P<t>:<f> | U<t>:<f> | D<t>:<f> | E = tag dropped externally) is replayed by the extracted
    vis_summary (Model/Merge.v): the hidden lock regions are inserted there, not here *)
@@ -36,9 +37,10 @@ let parse_vis (ev : string) : vis =
   | 'G' -> VG (nat_of_int (int_of_string rest))
   | 'E' -> VX
   | k ->
-    let t, f = (match String.split_on_char ':' rest with
-                | [a; b] -> nat_of_int (int_of_string a), b = "1" | _ -> failwith "ev") in
-    (match k with 'P' -> VP (t, f) | 'U' -> VU (t, f) | 'D' -> VD (t, f) | _ -> failwith "ev")
+    let t, f, lost = (match String.split_on_char ':' rest with
+                | [a; b] -> nat_of_int (int_of_string a), b = "1", b = "2" | _ -> failwith "ev") in
+    (* U<t>:2 = the index PUT took effect and was answered with an error (EPutLost) *)
+    (match k with 'P' -> VP (t, f) | 'U' -> if lost then VL t else VU (t, f) | 'D' -> VD (t, f) | _ -> failwith "ev")
 
 let show_results rs =
   String.concat "," (List.mapi (fun t r ->
@@ -113,8 +115,6 @@ let () =
     | id :: "M" :: n :: evs -> Printf.printf "%s %s\n" id (run_m (int_of_string n) evs)
     | id :: "X" :: sg :: init0 :: cs :: evs ->
       let evs = List.filter (fun e -> e.[0] <> 'J') evs in   (* J<hex>: the replay of the end-to-end case *)
-      if List.exists (fun e -> String.length e > 2 && String.sub e (String.length e - 2) 2 = ":2") evs
-      then Printf.printf "%s UNJUDGED response lost after effect\n" id else
       Printf.printf "%s %s\n" id (run_x ~cmp_dangling:(String.length sg = 1) (sg.[0] = '1') init0 (parse_changes cs) evs)
     | id :: "Y" :: sg :: init0 :: live0 :: cs :: z :: evs ->
       Printf.printf "%s %s\n" id (run_y (sg = "1") init0 live0 (parse_changes cs) z evs)
